@@ -297,3 +297,75 @@ def leaf_sig(lf):
 
 def show_alpha(alpha):
     return ", ".join(("" if v else "not ") + show_key(k) for k, v in sorted(alpha.items(), key=lambda kv: repr(kv[0])))
+
+
+# ------------------------------------------------------------------------------------ helpers for the rules
+def rows(leaves, ctx, extra_atoms=()):
+    """every consistent guard row of one summary: (alpha, leaf, substitution map, row context)"""
+    atoms = sorted(set(all_atoms(leaves)) | set(extra_atoms), key=repr)
+    for alpha in assignments(atoms, ctx):
+        lf = select(leaves, alpha)
+        if lf is None:
+            raise AnalysisError("guard row not decided")
+        mp, rctx = facts_from(alpha, ctx)
+        rctx.__class__ = ctx.__class__
+        rctx.kind = getattr(ctx, "kind", None)
+        yield alpha, lf, mp, rctx
+
+
+def is_dead_row(alpha, kind):
+    """row of table D: zero/off supply, mux without live input, or phase-inactive (sleep)"""
+    if alpha.get(("B", "OFF", 0)):
+        return True
+    for k, v in alpha.items():
+        if v and k[0] == "Z" and k[1] in (("m", "vi[0]"), ("m", "P.vo")) and (kind == "Source" or k[1] == ("m", "vi[0]")):
+            return True
+        if v and k[0] == "ZP" and "PRI" in repr(k[1]) or (v and k[0] == "ZP" and any(a == ("fr", "PRI") for a in k[1].atoms())):
+            return True
+    return False
+
+
+def is_sleep_row(alpha):
+    return bool(alpha.get(("B", "PC"))) and alpha.get(("B", "IN")) is False
+
+
+def finding_key(mm):
+    k = "%s | code: %s | spec: %s" % (mm["kind"], leaf_sig(mm["code"]), leaf_sig(mm["spec"]))
+    if mm.get("idx") is not None:
+        k += " | element %d" % mm["idx"]
+    return k
+
+
+def check_against_spec(model, rep, rule, kinds, whichs, want_rows=None, label=""):
+    """rule instance = (kind, method, mode); reports each distinct (code leaf, spec leaf) disagreement once"""
+    n = 0
+    seen = set()
+    for kind in kinds:
+        for which in whichs:
+            for zero in (False, True):
+                owner, fn, cl, ctx = summarize_law(model, kind, which, zero)
+                _, _, sl, _ = summarize_law(model, kind, which, zero, spec=True)
+                wr = (lambda a, s, kind=kind: want_rows(a, s, kind, zero)) if want_rows else None
+                mism, stats = compare(cl, sl, ctx, wr)
+                n += 1
+                rep.count("guard_rows", stats["rows"])
+                rep.count("leaves", len(cl))
+                construct = "components.%s.%s" % (kind, METH[which])
+                where = "%s:%d" % (model.rel("components"), fn.lineno)
+                bad = False
+                for mm in mism:
+                    key = finding_key(mm)
+                    if (construct, key) in seen:
+                        continue
+                    seen.add((construct, key))
+                    bad = True
+                    msg = "expected %s got %s on guard row {%s}" % (leaf_sig(mm["spec"]), leaf_sig(mm["code"]), show_alpha(mm["rows"][0]))
+                    if mm["kind"] == "value":
+                        msg += "; after row facts: expected %s got %s" % (show_value(mm["sv"]), show_value(mm["cv"]))
+                    rep.violation(rule, construct, where, msg, key,
+                                  {"mode": "vi=0" if zero else "vi!=0", "rows": len(mm["rows"]), "resolved_in": owner})
+                rep.instance(rule, construct + (" [vi=0]" if zero else " [vi!=0]") + label, where, not bad,
+                             "%d leaves, %d rows, defined in %s" % (len(cl), stats["rows"], owner))
+                if not zero and len(rep.samples) < 6:
+                    rep.sample({"summary_of": construct, "leaves": [lf.describe() for lf in cl][:6]})
+    return n
